@@ -126,7 +126,9 @@ class OptimizationGroup:
         result_dataset["weighted_residual"] = result_dataset["residual"]
         result_dataset["residual"] = result_dataset["residual"] / weight
         if "weight" not in result_dataset:
-            if weight.shape != result_dataset.data.shape:
+            # the weight of the data provider is laid out as (model, global)
+            model_dimension = self._data_provider.get_model_dimension(dataset_label)
+            if result_dataset.data.dims[0] != model_dimension:
                 weight = weight.T
             result_dataset["weight"] = (result_dataset.data.dims, weight)
 
